@@ -84,5 +84,25 @@ class Ids(srv.SrvHarness):
         return out
 
 
-HARNESSES = {'answers': Answers, 'ids': Ids}
-PLAN = {'quick': ['answers', 'ids'], 'thorough': ['answers', 'ids']}
+class AsyncAnswers(srv.ASrvHarness):
+    """the same oracle on AsyncServer (callers are tasks on a virtual event loop; gather / worker threads are real threads)"""
+    name = 'async_answers'
+
+    def configs(self, tier):
+        quick = tier == 'quick'
+        d = 1 if quick else 2
+        cap = 60000 if quick else 600000
+        four = [[[0, BIG, False]], [[1, BIG, False]], [[2, BIG, False]], [[3, BIG, False]]]
+        return [
+            dict(topo='single', capacity=2, nworkers=2, gated=['A'], env_wait=True, calls=four, oracles=O, bound=0 if quick else 1, cap=cap),
+            dict(topo='single', capacity=2, calls=four, oracles=O, bound=d, cap=cap),
+            dict(topo='seq', capacity=3, nworkers=2, gated=['A'], env_wait=True, fail={'B': [1]},
+                 calls=[[[0, BIG, False]], [[1, BIG, False]], [[2, BIG, False]]], oracles=O, bound=d, cap=cap),
+            dict(topo='ens', capacity=3, fail_fast=True, gated=['B'], fail={'A': [1]},
+                 calls=[[[0, BIG, False]], [[1, BIG, False]], [[2, BIG, False]]], oracles=O, bound=d, cap=cap),
+            dict(topo='single', capacity=2, calls=[[[10, BIG, False]]], stream=dict(xs=[0, 1, 2]), oracles=O, bound=d, cap=cap),
+        ]
+
+
+HARNESSES = {'answers': Answers, 'ids': Ids, 'async_answers': AsyncAnswers}
+PLAN = {'quick': ['answers', 'ids', 'async_answers'], 'thorough': ['answers', 'ids', 'async_answers']}
